@@ -151,7 +151,7 @@ FRESH = Fresh()
 
 # argument alternatives of an action: the other calls whose fresh result a wrong result may coincide with
 ALT_PE = ("exclude", "split", "ignore")
-ALT_PROJ = ("none", "robinson")
+ALT_PROJ = ("none", "robinson", "robinson180")
 ALT_ENG = ("spatialpandas", "geopandas")
 
 
